@@ -947,6 +947,42 @@ pub fn run_native(inputs: &HashMap<String, f64>, tapes: &[TapeSample], body: &(d
     out
 }
 
+
+/// Native confirmation of a solver model: the model itself first, then a few floating-point neighbours of it
+/// (each input moved by a few units in the last place).  The solver's model lives in real arithmetic; a violation
+/// that needs "two values one rounding apart" has an exact model that rounds onto a degenerate double.  The retry
+/// only ever turns an UNCONFIRMED candidate into a confirmed one by exhibiting a failing native run.
+pub fn confirm_native(model: &HashMap<String, f64>, tapes: &[TapeSample], body: &(dyn Fn() + Sync)) -> (ReplayOutcome, HashMap<String, f64>, bool) {
+    let out = run_native(model, tapes, body);
+    let ok = |o: &ReplayOutcome| !o.assume_failed && (!o.failures.is_empty() || o.panic_msg.is_some());
+    if ok(&out) {
+        return (out, model.clone(), true);
+    }
+    let mut keys: Vec<&String> = model.keys().collect();
+    keys.sort();
+    let mut h: u64 = 0x9E3779B97F4A7C15;
+    for round in 0..32u64 {
+        let mut m2 = model.clone();
+        for k in &keys {
+            h = h.wrapping_mul(6364136223846793005).wrapping_add(1442695040888963407 + round);
+            let j = ((h >> 33) % 9) as i64 - 4;
+            let v = model[*k];
+            if v != 0.0 && v.is_finite() && j != 0 {
+                let bits = v.to_bits() as i64 + j;
+                let w = f64::from_bits(bits as u64);
+                if w.is_finite() {
+                    m2.insert((*k).clone(), w);
+                }
+            }
+        }
+        let o2 = run_native(&m2, tapes, body);
+        if ok(&o2) {
+            return (o2, m2, true);
+        }
+    }
+    (out, model.clone(), false)
+}
+
 // ---------------------------------------------------------------------
 // exploration driver
 
@@ -1137,12 +1173,11 @@ pub fn explore(cfg: &Cfg, sym_body: &(dyn Fn() + Sync), nat_body: &(dyn Fn() + S
                 }
                 ObStatus::Undecided => rep.undecided.push(o.name.clone()),
                 ObStatus::Candidate => {
-                    let out = run_native(&o.model, &o.tapes, nat_body);
-                    let confirmed = !out.assume_failed && (!out.failures.is_empty() || out.panic_msg.is_some());
+                    let (out, used, confirmed) = confirm_native(&o.model, &o.tapes, nat_body);
                     rep.candidates.push(Candidate {
                         harness: cfg.name.clone(),
                         obligation: o.name.clone(),
-                        inputs: o.model.clone(),
+                        inputs: used,
                         tapes: o.tapes.clone(),
                         decisions: r.decisions.clone(),
                         confirmed,
@@ -1157,12 +1192,11 @@ pub fn explore(cfg: &Cfg, sym_body: &(dyn Fn() + Sync), nat_body: &(dyn Fn() + S
             rep.paths_panicked += 1;
             // a panic inside library code on a feasible path is a violation candidate ("never panic")
             if let Some((m, tapes)) = &r.panic_model {
-                let out = run_native(m, tapes, nat_body);
-                let confirmed = !out.assume_failed && (out.panic_msg.is_some() || !out.failures.is_empty());
+                let (out, used, confirmed) = confirm_native(m, tapes, nat_body);
                 rep.candidates.push(Candidate {
                     harness: cfg.name.clone(),
                     obligation: format!("no-panic [{}]", msg),
-                    inputs: m.clone(),
+                    inputs: used,
                     tapes: tapes.clone(),
                     decisions: r.decisions.clone(),
                     confirmed,
